@@ -4,7 +4,12 @@
 import json, os, subprocess, sys, time
 ROOT = "/verif"
 def sh(cmd, **kw):
-    return subprocess.run(cmd, shell=True, capture_output=True, text=True, **kw)
+    try:
+        return subprocess.run(cmd, shell=True, capture_output=True, text=True, **kw)
+    except subprocess.TimeoutExpired as e:
+        # (a check that hangs under a seeded change: the process group is left to the caller to clean)
+        return subprocess.CompletedProcess(cmd, 124, stdout=(e.stdout or b"").decode() if isinstance(e.stdout, bytes) else (e.stdout or ""), stderr="TIMEOUT")
+TIERS = tuple(os.environ.get("VERIF_DETECT_TIERS", "quick,thorough").split(","))
 ids = sys.argv[1:] or sorted(os.listdir(f"{ROOT}/seeded"))
 import fcntl
 os.makedirs(f"{ROOT}/work", exist_ok=True)
@@ -25,9 +30,9 @@ for sid in ids:
       checks = meta.get("checks", [meta["property"]])
       det = {}
       for c in checks:
-          for tier in ("quick", "thorough"):
+          for tier in TIERS:
               t0 = time.time()
-              o = sh(f"cd {ROOT} && ./check {c} --tier {tier}")
+              o = sh(f"cd {ROOT} && exec ./check {c} --tier {tier}", timeout=1500)
               out = o.stdout + o.stderr
               nviol = out.count("\nVIOLATION ") + (1 if out.startswith("VIOLATION ") else 0)
               first = next((l.strip() for l in out.splitlines() if l.strip().startswith("key:")), "")
